@@ -49,6 +49,19 @@ FIXTURES = {
                ("Definition", 0, "_children"): [1, 2], ("Definition", 1, "_children"): [3]},
         refs={0: 0, 1: 1, 2: 2, 3: 2},      # m:MID, snk:LEAF in TOP ; u0:LEAF in MID
         top=0),
+    # an EBLIF-shaped netlist: library work {TOP, SUB}, library hdi_primitives {LEAF}
+    # TOP(u1:SUB, g:LEAF) ; SUB(l0:LEAF) ; ports TOP.a, SUB.A, LEAF.I, LEAF.O ; nets TOP.n, TOP.m, SUB.x
+    "eblif": dict(
+        live=dict(Netlist=1, Library=2, Definition=3, Port=4, Cable=3, Wire=3, Instance=4, InnerPin=4, OuterPin=6),
+        shape={("Netlist", 0, "_libraries"): [0, 1], ("Library", 0, "_definitions"): [0, 1], ("Library", 1, "_definitions"): [2],
+               ("Definition", 0, "_ports"): [0], ("Port", 0, "_pins"): [0],
+               ("Definition", 1, "_ports"): [1], ("Port", 1, "_pins"): [1],
+               ("Definition", 2, "_ports"): [2, 3], ("Port", 2, "_pins"): [2], ("Port", 3, "_pins"): [3],
+               ("Definition", 0, "_cables"): [0, 1], ("Cable", 0, "_wires"): [0], ("Cable", 1, "_wires"): [1],
+               ("Definition", 1, "_cables"): [2], ("Cable", 2, "_wires"): [2],
+               ("Definition", 0, "_children"): [1, 2], ("Definition", 1, "_children"): [3]},
+        refs={0: 0, 1: 1, 2: 2, 3: 2},
+        top=0),
     # a wire-only cell one level down: FEED has two ports and a net but NO children (not a leaf: it owns a cable)
     # TOP(m:MID) ; MID(f:FEED, l:LEAF) ; ports MID.I, FEED.A, FEED.B, LEAF.I ; nets TOP.t, MID.w_in, MID.w_out, FEED.w
     "wire-only": dict(
